@@ -98,7 +98,7 @@ Lemma icentries_plain bs : Forall legal_iblock bs -> Forall MergeEntriesShape.pl
 Proof.
   intros Hl. apply Forall_forall. intros e He. unfold MergeEntriesShape.plain.
   destruct (icents_In bs Hl [] e eq_refl He)
-    as [(w0 & -> & _)|[(cs & _ & ->)|[(name & nl & _ & ->)|(cs & k & v & nl & _ & ->)]]]; cbn; auto.
+    as [(w0 & -> & _)|[(cs & _ & ->)|[(name & nl & _ & ->)|(cs & k & v & nl & _ & ->)]]]; cbn; auto 8.
 Qed.
 
 Lemma icents_noadj bs : forall w, noadj (icents w bs).
